@@ -2,6 +2,7 @@ package main
 
 import (
 	"encoding/json"
+	"os/exec"
 	"flag"
 	"fmt"
 	"os"
@@ -218,6 +219,11 @@ func runCheck(repo, prop, tier string, keep bool, only string, noEvidence bool) 
 		}
 		results = append(results, verifyLemma(w, lm))
 	}
+	for _, pi := range w.contracts.PackageInvs {
+		if hasProp(pi.Props, prop) && only == "" && pi.Kind == "noglobalwrites" {
+			results = append(results, verifyNoGlobalWrites(w, pi))
+		}
+	}
 	for _, rp := range w.contracts.Replacers {
 		if !hasProp(rp.Props, prop) || (only != "" && !strings.Contains(rp.Global, only)) {
 			continue
@@ -265,6 +271,36 @@ func runCheck(repo, prop, tier string, keep bool, only string, noEvidence bool) 
 		}(fr)
 	}
 	wg.Wait()
+	// quiet retry: an obligation that only timed out while all cores were busy is
+	// raced again, two at a time, with three times the budget. A timeout is never
+	// reported as a violation on the strength of one loaded run.
+	{
+		rcfg := cfg
+		rcfg.Timeout = 3 * cfg.Timeout
+		rsem := make(chan struct{}, 2)
+		var rwg sync.WaitGroup
+		for _, fr := range results {
+			if fr.Enc == nil {
+				continue
+			}
+			for _, o := range fr.Obls {
+				if o.Cover || (o.Status != "timeout" && o.Status != "unknown") {
+					continue
+				}
+				rwg.Add(1)
+				rsem <- struct{}{}
+				go func(fr *FuncResult, o *Obligation) {
+					defer rwg.Done()
+					defer func() { <-rsem }()
+					raceStandalone(fr.Enc, o, rcfg, "")
+					if o.Status == "unsat" {
+						o.Solver += "+retry"
+					}
+				}(fr, o)
+			}
+		}
+		rwg.Wait()
+	}
 
 	known := loadKnown()
 	isKnown := func(name string) *KnownFinding {
@@ -318,6 +354,10 @@ func runCheck(repo, prop, tier string, keep bool, only string, noEvidence bool) 
 			fmt.Printf("ERROR inconsistent-assumptions: %s (contracts, type invariants or library models contradict each other; nothing proved about this function is believed)\n", fr.Name)
 			inconsistent++
 		}
+		for _, v := range fr.VacuousAt {
+			fmt.Printf("ERROR vacuous-path: %s is at a program point that the accumulated assumptions make unreachable (a contract, invariant or library model is contradictory on this path)\n", v)
+			inconsistent++
+		}
 		havoc += fr.HavocSites
 		for _, l := range fr.UsedLib {
 			usedLib[l] = true
@@ -364,6 +404,8 @@ func runCheck(repo, prop, tier string, keep bool, only string, noEvidence bool) 
 			fmt.Fprintf(os.Stderr, "govc: undischarged %s [%s] %s: %s\n", o.Name, o.Pos, o.Status, o.Clause)
 		}
 	}
+	// bounded stand-ins (labelled, never counted as proved): /verif/bounded/<prop>_*_test.go
+	bounded := runBounded(repo, prop, isKnown, &knownLines, &violations)
 	sort.Strings(funcsUnder)
 	for _, l := range knownLines {
 		fmt.Println(l)
@@ -392,7 +434,7 @@ func runCheck(repo, prop, tier string, keep bool, only string, noEvidence bool) 
 		}
 		sort.Strings(libs)
 		sort.Strings(ctrs)
-		writeEvidence(prop, tier, seed, wall, total, discharged, byBackend, solverSecs, samples, funcsUnder, knownLines, undecided, havoc, libs, ctrs, assumed, covers, coverFail, len(violations))
+		writeEvidence(prop, tier, seed, wall, total, discharged, byBackend, solverSecs, samples, funcsUnder, knownLines, undecided, havoc, libs, ctrs, assumed, covers, coverFail, len(violations), bounded)
 	}
 	return exit
 }
@@ -427,4 +469,58 @@ func fnTypeInstance(fc *FuncContract, fn *ssa.Function) *FuncContract {
 	}
 	c.FnType = ""
 	return &c
+}
+
+// runBounded runs the bounded stand-in harnesses of a property: in-package Go
+// tests injected with -overlay that print
+//   BOUNDED-COUNT: generated=<n> accepted=<m>
+//   BOUNDED-FAIL: <class> count=<k> first=<input -> output>
+func runBounded(repo, prop string, isKnown func(string) *KnownFinding, knownLines, violations *[]string) []map[string]interface{} {
+	files, _ := filepath.Glob(filepath.Join(verifDir, "bounded", strings.ToLower(prop)+"_*_test.go"))
+	var out []map[string]interface{}
+	for _, f := range files {
+		dir, err := os.MkdirTemp("", "govc-bounded-")
+		if err != nil {
+			continue
+		}
+		ov := map[string]map[string]string{"Replace": {filepath.Join(repo, "zz_bounded_"+filepath.Base(f)): f}}
+		ob, _ := json.Marshal(ov)
+		of := filepath.Join(dir, "overlay.json")
+		os.WriteFile(of, ob, 0o644)
+		cmd := exec.Command("go", "test", "-tags", "verif", "-overlay", of, "-vet=off", "-count=1", "-timeout", "300s", "-run", "^TestZZBounded"+prop+"$", "-v", ".")
+		cmd.Dir = repo
+		cmd.Env = append(os.Environ(), "GOFLAGS=-mod=mod", "GOPROXY=off", "GOSUMDB=off", "GOTOOLCHAIN=local")
+		outb, _ := cmd.CombinedOutput()
+		os.RemoveAll(dir)
+		text := string(outb)
+		rec := map[string]interface{}{"harness": filepath.Base(f), "label": "bounded (not a proof)"}
+		ran := false
+		for _, line := range strings.Split(text, "\n") {
+			if strings.HasPrefix(line, "BOUNDED-COUNT:") {
+				rec["count"] = strings.TrimSpace(strings.TrimPrefix(line, "BOUNDED-COUNT:"))
+				ran = true
+			}
+			if strings.HasPrefix(line, "BOUNDED-BOUND:") {
+				rec["bound"] = strings.TrimSpace(strings.TrimPrefix(line, "BOUNDED-BOUND:"))
+			}
+			if strings.HasPrefix(line, "BOUNDED-FAIL:") {
+				rest := strings.TrimSpace(strings.TrimPrefix(line, "BOUNDED-FAIL:"))
+				class, _ := splitWord(rest)
+				oname := "bounded:" + strings.TrimSuffix(filepath.Base(f), "_test.go") + "/" + class
+				if k := isKnown(oname); k != nil {
+					*knownLines = append(*knownLines, fmt.Sprintf("KNOWN-FINDING: property=%s %s %s (witness: %s)", prop, oname, k.What, k.Witness))
+					continue
+				}
+				path := writeReplay(prop, oname, map[string]interface{}{"property": prop, "obligation": oname, "kind": "bounded", "failing_case": rest, "harness": f})
+				*violations = append(*violations, fmt.Sprintf("VIOLATION property=%s replay=%s", prop, path))
+			}
+		}
+		if !ran {
+			// the harness did not run (does not compile against the changed tree, or crashed)
+			path := writeReplay(prop, "bounded:"+filepath.Base(f)+"#run", map[string]interface{}{"property": prop, "obligation": "bounded harness did not run", "output": tail(text, 3000)})
+			*violations = append(*violations, fmt.Sprintf("VIOLATION property=%s replay=%s no-failing-input-found", prop, path))
+		}
+		out = append(out, rec)
+	}
+	return out
 }
